@@ -34,3 +34,11 @@ PROPS['C19'] = dict(
                '64-bit domains are sampled, not enumerated; little-endian host only',
     technique='exhaustive/structured input sweep with exact-arithmetic oracle under ASan+UBSan',
 )
+
+# per-property fragments: bin/props_Cxx.py each define SPEC (same keys as above)
+import glob as _glob, os as _os, importlib.util as _ilu
+for _p in sorted(_glob.glob(_os.path.join(_os.path.dirname(_os.path.abspath(__file__)), 'props_C[0-9][0-9].py'))):
+    _spec = _ilu.spec_from_file_location(_os.path.basename(_p)[:-3], _p)
+    _m = _ilu.module_from_spec(_spec)
+    _spec.loader.exec_module(_m)
+    PROPS[_os.path.basename(_p)[6:9]] = _m.SPEC
